@@ -394,7 +394,15 @@ impl Linter for LintGroup {
         // Normal linters
         for (key, linter) in &mut self.linters {
             if self.config.is_rule_enabled(key) {
+                #[cfg(harper_verif)]
+                let verif_before = results.len();
                 results.extend(linter.lint(document));
+                #[cfg(harper_verif)]
+                crate::verif::emit(&crate::verif::Event::RuleRan {
+                    rule: key,
+                    pattern: false,
+                    lints: &results[verif_before..],
+                });
             }
         }
 
@@ -408,6 +416,12 @@ impl Linter for LintGroup {
             let config_hash = self.hasher_builder.hash_one(&self.config);
             let key = (chunk_chars.into(), config_hash);
 
+            #[cfg(harper_verif)]
+            crate::verif::emit(&crate::verif::Event::ChunkCache {
+                hit: self.chunk_pattern_cache.contains(&key),
+                chunk_len: chunk_chars.len(),
+            });
+
             let mut chunk_results = if let Some(hit) = self.chunk_pattern_cache.get(&key) {
                 hit.clone()
             } else {
@@ -415,7 +429,15 @@ impl Linter for LintGroup {
 
                 for (key, linter) in &mut self.pattern_linters {
                     if self.config.is_rule_enabled(key) {
+                        #[cfg(harper_verif)]
+                        let verif_before = pattern_lints.len();
                         pattern_lints.extend(run_on_chunk(linter, chunk, document.get_source()));
+                        #[cfg(harper_verif)]
+                        crate::verif::emit(&crate::verif::Event::RuleRan {
+                            rule: key,
+                            pattern: true,
+                            lints: &pattern_lints[verif_before..],
+                        });
                     }
                 }
 
